@@ -96,6 +96,32 @@ fn enc_array(vals: &[u64]) -> pb::EncodedU64Array {
     pb::EncodedU64Array { array: Some(arr) }
 }
 
+/// an array with an explicitly chosen offset width (16 / 32 / 64); `None` if the values do not fit that width
+fn enc_array_w(vals: &[u64], w: u64) -> Option<pb::EncodedU64Array> {
+    use pb::encoded_u64_array as a;
+    let min = vals.iter().copied().min().unwrap_or(0);
+    let max = vals.iter().copied().max().unwrap_or(0);
+    let span = max - min;
+    let arr = match w {
+        16 if span <= u16::MAX as u64 => a::Array::U16Array(a::U16Array {
+            base: min,
+            offsets: vals.iter().flat_map(|v| ((v - min) as u16).to_le_bytes()).collect(),
+        }),
+        32 if span <= u32::MAX as u64 => a::Array::U32Array(a::U32Array {
+            base: min,
+            offsets: vals.iter().flat_map(|v| ((v - min) as u32).to_le_bytes()).collect(),
+        }),
+        64 => a::Array::U64Array(a::U64Array { values: vals.iter().flat_map(|v| v.to_le_bytes()).collect() }),
+        _ => return None,
+    };
+    Some(pb::EncodedU64Array { array: Some(arr) })
+}
+
+fn big_ids(a: u64, b: u64, holes: &[u64]) -> Vec<u64> {
+    let hs: HashSet<u64> = holes.iter().copied().collect();
+    (a..b).filter(|x| !hs.contains(x)).collect()
+}
+
 fn dec_array(p: &pb::EncodedU64Array) -> Vec<u64> {
     use pb::encoded_u64_array::Array::*;
     match p.array.as_ref().expect("array") {
@@ -314,6 +340,136 @@ fn exec_line(cx: &mut Ctx, line: &str) -> String {
                     PANIC.into()
                 }
             }
+        }
+        // ---- width-boundary families: short op lines for long dense ranges
+        ["bseg", r, a, b, holes] => {
+            let (Ok(a), Ok(b), Some(holes)) = (a.parse::<u64>(), b.parse::<u64>(), parse_nat_list(holes)) else { return BAD.into() };
+            if a > b || b - a > 200_000 {
+                return BAD.into();
+            }
+            let ids = big_ids(a, b, &holes);
+            cx.tags.insert("big:bseg".into());
+            match pcatch(|| U64Segment::from_slice(&ids)) {
+                Some(s) => cx.put_seg(r, s, ids, "from_slice"),
+                None => {
+                    cx.fail("from_slice_panic", format!("from_slice({a}..{b} minus {:?}) panicked", holes));
+                    PANIC.into()
+                }
+            }
+        }
+        ["qbig", r, a, b, holes] => {
+            let (Ok(a), Ok(b), Some(holes)) = (a.parse::<u64>(), b.parse::<u64>(), parse_nat_list(holes)) else { return BAD.into() };
+            if a > b || b - a > 200_000 {
+                return BAD.into();
+            }
+            let ids = big_ids(a, b, &holes);
+            cx.tags.insert("big:qbig".into());
+            match pcatch(|| RowIdSequence::from(ids.as_slice())) {
+                Some(q) => cx.put_seq(r, q, ids, "from_slice"),
+                None => {
+                    cx.fail("from_slice_panic", format!("from_slice({a}..{b} minus {:?}) panicked", holes));
+                    PANIC.into()
+                }
+            }
+        }
+        ["scheck", a, ids] => {
+            // membership / iteration consistency on chosen probes: len() == iter().count(), every written id found at its
+            // place, no unwritten id found
+            let (Some((s, l)), Some(ids)) = (cx.seg(a), parse_nat_list(ids)) else { return BAD.into() };
+            let Some((len, cnt)) = pcatch(|| (s.len(), s.iter().count())) else { return PANIC.into() };
+            if len != cnt || cnt != l.len() {
+                cx.fail("len_vs_iter", format!("len() = {len}, iter().count() = {cnt}, built from {} ids", l.len()));
+            }
+            let mut out = format!("len={len} cnt={cnt}");
+            for v in ids {
+                match pcatch(|| (s.position(v), s.contains(v))) {
+                    Some((p, c)) => {
+                        let want = l.iter().position(|x| *x == v);
+                        if p != want || c != want.is_some() {
+                            cx.fail("seg_position", format!("position({v}) = {:?} contains = {c}, the id is at {:?}", p, want));
+                        }
+                        if let Some(i) = want {
+                            if pcatch(|| s.get(i)).flatten() != Some(v) {
+                                cx.fail("seg_get", format!("get({i}) does not return the id {v} stored there"));
+                            }
+                        }
+                        out.push_str(&format!(" {v}:{}:{c}", p.map(|x| x.to_string()).unwrap_or("-".into())));
+                    }
+                    None => out.push_str(&format!(" {v}:panic")),
+                }
+            }
+            out
+        }
+        ["hpos", w, a, b, holes, probes] => {
+            // a raw RangeWithHoles over a range too long to iterate; the holes array has the requested offset width
+            let (Ok(w), Ok(a), Ok(b), Some(holes), Some(probes)) =
+                (w.parse::<u64>(), a.parse::<u64>(), b.parse::<u64>(), parse_nat_list(holes), parse_nat_list(probes))
+            else {
+                return BAD.into();
+            };
+            if a >= b || !is_sorted_strict(&holes) || holes.iter().any(|h| *h < a || *h >= b) {
+                return BAD.into();
+            }
+            let Some(arr) = enc_array_w(&holes, w) else { return BAD.into() };
+            use pb::u64_segment as g;
+            let p = pb::U64Segment { segment: Some(g::Segment::RangeWithHoles(g::RangeWithHoles { start: a, end: b, holes: Some(arr) })) };
+            let s = U64Segment::try_from(p).expect("segment from pb");
+            cx.tags.insert(format!("hpos:w{w}"));
+            let Some(len) = pcatch(|| s.len()) else { return PANIC.into() };
+            if len as u64 != b - a - holes.len() as u64 {
+                cx.fail("seg_len", format!("len() = {len} for {} slots and {} holes", b - a, holes.len()));
+            }
+            let mut out = format!("len={len}");
+            for v in probes {
+                match pcatch(|| (s.position(v), s.contains(v))) {
+                    Some((pp, c)) => {
+                        let present = v >= a && v < b && !holes.contains(&v);
+                        let want = if present { Some((v - a) as usize - holes.iter().filter(|h| **h < v).count()) } else { None };
+                        if pp != want || c != present {
+                            cx.fail("seg_position", format!("position({v}) = {:?} contains = {c}, expected {:?}", pp, want));
+                        }
+                        out.push_str(&format!(" {v}:{}:{c}", pp.map(|x| x.to_string()).unwrap_or("-".into())));
+                    }
+                    None => out.push_str(&format!(" {v}:panic")),
+                }
+            }
+            out
+        }
+        ["ebs", w, vals, probes] => {
+            // EncodedU64Array::binary_search / get at an explicit offset width, reached through SortedArray::position / get
+            let (Ok(w), Some(vals), Some(probes)) = (w.parse::<u64>(), parse_nat_list(vals), parse_nat_list(probes)) else { return BAD.into() };
+            if vals.is_empty() || !is_sorted_strict(&vals) {
+                return BAD.into();
+            }
+            let Some(arr) = enc_array_w(&vals, w) else { return BAD.into() };
+            let p = pb::U64Segment { segment: Some(pb::u64_segment::Segment::SortedArray(arr)) };
+            let s = U64Segment::try_from(p).expect("segment from pb");
+            cx.tags.insert(format!("ebs:w{w}"));
+            let got: Vec<u64> = s.iter().collect();
+            if got != vals {
+                cx.fail("encoded_array_roundtrip", format!("array iterates {:?}, built from {:?}", got, vals));
+            }
+            let mut out = String::new();
+            for v in probes {
+                match pcatch(|| (s.position(v), s.contains(v))) {
+                    Some((pp, c)) => {
+                        let want = vals.iter().position(|x| *x == v);
+                        if pp != want || c != want.is_some() {
+                            cx.fail("encoded_array_search", format!("binary_search({v}) = {:?} (contains {c}), the value is at {:?}", pp, want));
+                        }
+                        out.push_str(&format!("{v}:{} ", pp.map(|x| x.to_string()).unwrap_or("-".into())));
+                    }
+                    None => out.push_str(&format!("{v}:panic ")),
+                }
+            }
+            for i in 0..=vals.len() {
+                let g = pcatch(|| s.get(i)).flatten();
+                if g != vals.get(i).copied() {
+                    cx.fail("encoded_array_get", format!("get({i}) = {:?}", g));
+                }
+                out.push_str(&format!("g{i}={} ", g.map(|x| x.to_string()).unwrap_or("-".into())));
+            }
+            out.trim_end().to_string()
         }
         ["enc", ids] => {
             // the physical EncodedU64Array that from_slice builds for array-like encodings (read off the protobuf form)
@@ -1013,7 +1169,7 @@ impl Prop for C34 {
         }
     }
     fn rule(&self) -> String {
-        "each case builds 1-4 registers (segments via from_slice or a raw well-formed encoding; sequences via from/extend/raw) from id lists that are contiguous / holey / alternating / sparse / outlier / shuffled, with bases at 0, at a 2^32 boundary and just below u64::MAX, then applies 2-8 of slice/delete/mask/with_new_high/get/position/extend/select/mask_to_offset_ranges/rechunk/select_row_ids/index with arguments drawn from the current plain lists (70% valid, rest out of range / absent / duplicated); the first 512 cases enumerate all subsets of an 8-id universe (as one segment with every segment op, and split into two segments - the second raw-encoded - with every sequence op). Non-trivial = at least one register holds >= 2 ids and one non-constructor op ran. Excluded (documented preconditions, results undefined): duplicate ids inside one sorted list, id u64::MAX, unsorted mask positions, spans >= 2^53.".into()
+        "each case builds 1-4 registers (segments via from_slice or a raw well-formed encoding; sequences via from/extend/raw) from id lists that are contiguous / holey / alternating / sparse / outlier / shuffled, with bases at 0, at a 2^32 boundary and just below u64::MAX, then applies 2-8 of slice/delete/mask/with_new_high/get/position/extend/select/mask_to_offset_ranges/rechunk/select_row_ids/index with arguments drawn from the current plain lists (70% valid, rest out of range / absent / duplicated); the first 512 cases enumerate all subsets of an 8-id universe (as one segment with every segment op, and split into two segments - the second raw-encoded - with every sequence op). Cases 512-559 (and 1 in 150 afterwards) are width-boundary cases: dense ranges of 65533..131086 ids with holes and probes at base, base+65535, base+65536 and hole+65536k (segment and sequence ops, index lookups, mask_to_offset_ranges), explicit-width U16/U32/U64 arrays probed at aliases modulo 2^16 / 2^32, and raw RangeWithHoles over up to 2^33 slots that are only probed. Non-trivial = at least one register holds >= 2 ids and one non-constructor op ran. Excluded (documented preconditions, results undefined): duplicate ids inside one sorted list, id u64::MAX, unsorted mask positions, spans >= 2^53.".into()
     }
 
     fn gen_case(&mut self, rng: &mut Rng, tier: Tier, idx: usize) -> Vec<String> {
@@ -1066,6 +1222,163 @@ impl Prop for C34 {
                     out.push(format!("qslice c {off} {len}"));
                 }
                 out.push(format!("index 1/c/{} {}", show_nat_list(sorted_subset(rng, n, 1, 4)), show_nat_list(9..20u64)));
+            }
+            return out;
+        }
+
+        // ---- width-boundary cases: dense ranges whose span crosses 65536 (the u16 offset width of EncodedU64Array) with holes
+        //      and probes at base, base+65535, base+65536, hole+65536*k; explicit-width arrays and holes arrays at the u16 / u32
+        //      limits (ranges too long to iterate are only probed)
+        if (512..560).contains(&idx) || rng.chance(1, 150) {
+            let b0 = match rng.below(5) {
+                0 => 0,
+                1 => rng.below(20),
+                2 => (1u64 << 32) - 40_000,
+                3 => 1u64 << 40,
+                _ => u64::MAX - 1 - 200_000 - rng.below(1000),
+            };
+            match rng.below(4) {
+                0 | 1 => {
+                    let span = match rng.below(4) {
+                        0 => 65_536 + rng.below(6),
+                        1 => 65_536 - rng.below(4),
+                        2 => 70_000,
+                        _ => 131_072 + 10 + rng.below(5),
+                    };
+                    let e = b0 + span;
+                    // holes: small offsets, around 65535/65536, and one far hole
+                    let mut holes: BTreeSet<u64> = BTreeSet::new();
+                    let cands = [3u64, 7, 1, 2, 65_534, 65_535, 65_536, 65_537, 9, 40_000];
+                    for _ in 0..rng.range(1, 5) {
+                        let c = *rng.pick(&cands);
+                        if c + 1 < span && c > 0 {
+                            holes.insert(b0 + c);
+                        }
+                    }
+                    if holes.is_empty() {
+                        holes.insert(b0 + 3);
+                    }
+                    let hv: Vec<u64> = holes.iter().copied().collect();
+                    let mut probes: BTreeSet<u64> = BTreeSet::new();
+                    for h in &hv {
+                        for k in [0u64, 65_536, 131_072] {
+                            probes.insert(h.wrapping_add(k));
+                            probes.insert(h.wrapping_add(k).wrapping_add(1));
+                        }
+                        if *h >= 65_536 {
+                            probes.insert(h - 65_536);
+                        }
+                    }
+                    for d in [0u64, 1, 65_535, 65_536, 65_537, span - 1, span, span + 65_536] {
+                        probes.insert(b0.wrapping_add(d));
+                    }
+                    if b0 > 0 {
+                        probes.insert(b0 - 1);
+                    }
+                    let pv: Vec<u64> = probes.iter().copied().filter(|x| *x < u64::MAX).collect();
+                    let inside: Vec<u64> = pv.iter().copied().filter(|x| *x >= b0 && *x < e && !holes.contains(x)).collect();
+                    let n = (span - hv.len() as u64) as usize;
+                    if rng.chance(1, 2) {
+                        out.push(format!("bseg a {b0} {e} {}", show_nat_list(hv.iter().copied())));
+                        out.push(format!("scheck a {}", show_nat_list(pv.iter().copied())));
+                        out.push("srange a".into());
+                        for off in [0usize, 1, 65_530, 65_533, 65_534, 65_535, 65_536, n - 1, n] {
+                            if off <= n {
+                                out.push(format!("sget a {off}"));
+                            }
+                        }
+                        let off = 65_528usize.min(n.saturating_sub(12));
+                        out.push(format!("sslice b a {off} 12"));
+                        out.push("siter b".into());
+                        let del: Vec<u64> = inside.iter().copied().filter(|_| rng.chance(1, 2)).collect();
+                        out.push(format!("sdel c a {}", show_nat_list(del.iter().copied())));
+                        out.push(format!("scheck c {}", show_nat_list(pv.iter().copied())));
+                        let pos: Vec<u64> = [0u64, 2, 65_530, 65_534, 65_535, 65_536].iter().copied().filter(|p| (*p as usize) < n && rng.chance(2, 3)).collect();
+                        out.push(format!("smask d a {}", show_nat_list(pos)));
+                        out.push(format!("scheck d {}", show_nat_list(pv.iter().copied())));
+                        out.push(format!("shigh h a {}", e + rng.below(3)));
+                        out.push(format!("scheck h {}", show_nat_list(pv.iter().copied())));
+                    } else {
+                        let two = rng.chance(1, 2) && b0 >= 20;
+                        if two {
+                            out.push(format!("qrange p {} {}", b0 - 20, b0 - 10));
+                            out.push(format!("qbig t {b0} {e} {}", show_nat_list(hv.iter().copied())));
+                            out.push("qext q p t".into());
+                        } else {
+                            out.push(format!("qbig q {b0} {e} {}", show_nat_list(hv.iter().copied())));
+                        }
+                        let shift = if two { 10 } else { 0 };
+                        for off in [0usize, 65_530, 65_534, 65_535, 65_536, 65_537, n - 1 + shift, n + shift] {
+                            if off <= n + shift {
+                                out.push(format!("qget q {off}"));
+                            }
+                        }
+                        out.push(format!("qm2o q allow {}", show_nat_list(pv.iter().copied())));
+                        out.push(format!("qslice q {} 12", 65_528usize.min((n + shift).saturating_sub(12))));
+                        out.push(format!("qsel q {}", show_nat_list([0u64, 5, 65_533, 65_534, 65_535, 65_536, 65_540].iter().copied().filter(|x| (*x as usize) < n + shift + 3))));
+                        let dv: Vec<u64> = [1u64, 65_534, 65_536].iter().copied().filter(|x| (*x as usize) < n && rng.chance(1, 2)).collect();
+                        out.push(format!("index {}/q/{} {}", rng.below(4), show_nat_list(dv), show_nat_list(pv.iter().copied())));
+                        let del: Vec<u64> = inside.iter().copied().filter(|_| rng.chance(1, 2)).collect();
+                        out.push(format!("qdel r q {}", show_nat_list(del.iter().copied())));
+                        out.push(format!("qm2o r allow {}", show_nat_list(pv.iter().copied())));
+                        out.push(format!("selrows q range {}..{}", 65_530usize.min(n), 65_540usize.min(n + shift)));
+                    }
+                }
+                2 => {
+                    // explicit-width sorted arrays at the width limits; probes alias the stored values modulo 2^16 / 2^32
+                    let w = *rng.pick(&[16u64, 32, 64]);
+                    let lim = match w { 16 => 65_535u64, 32 => u32::MAX as u64, _ => (1u64 << 33) + 5 };
+                    let b = b0.min(u64::MAX - 1 - lim - (1u64 << 34));
+                    let mut vals: BTreeSet<u64> = BTreeSet::new();
+                    vals.insert(b);
+                    vals.insert(b + lim);
+                    for _ in 0..rng.range(1, 4) {
+                        vals.insert(b + match rng.below(4) { 0 => rng.below(10), 1 => lim - rng.below(10).min(lim), 2 => rng.below(lim + 1), _ => 65_535u64.min(lim) });
+                    }
+                    let vv: Vec<u64> = vals.iter().copied().collect();
+                    let mut probes: BTreeSet<u64> = BTreeSet::new();
+                    for v in &vv {
+                        probes.insert(*v);
+                        for k in [65_536u64, 131_072, 1 << 32, 1 << 33, 1] {
+                            probes.insert(v + k);
+                            if *v >= k {
+                                probes.insert(v - k);
+                            }
+                        }
+                    }
+                    out.push(format!("ebs {w} {} {}", show_nat_list(vv.iter().copied()), show_nat_list(probes.iter().copied())));
+                    out.push(format!("enc {}", show_nat_list(vv.iter().copied())));
+                    out.push(format!("sraw a S:{}", show_nat_list(vv.iter().copied())));
+                    out.push(format!("scheck a {}", show_nat_list(probes.iter().copied())));
+                }
+                _ => {
+                    // raw RangeWithHoles over 2^16 / 2^32 / 2^33 slots (never iterated), holes array of each width
+                    let w = *rng.pick(&[16u64, 32, 64]);
+                    let range_span = *rng.pick(&[65_536u64 + 9, 70_000, (1 << 32) - 2, (1 << 32) + 10, (1 << 33) + 10]);
+                    let b = b0.min(u64::MAX - 1 - range_span - (1u64 << 34));
+                    let hspan = match w { 16 => 65_535u64, 32 => u32::MAX as u64, _ => range_span - 2 }.min(range_span - 2);
+                    let h0 = b + rng.below(5);
+                    let mut holes: BTreeSet<u64> = BTreeSet::new();
+                    holes.insert(h0);
+                    for _ in 0..rng.range(1, 4) {
+                        holes.insert(h0 + rng.below(hspan.min(50) + 1));
+                    }
+                    if rng.chance(1, 2) {
+                        holes.insert(h0 + hspan.min(range_span - 6));
+                    }
+                    let hv: Vec<u64> = holes.iter().copied().filter(|h| *h < b + range_span).collect();
+                    let mut probes: BTreeSet<u64> = BTreeSet::new();
+                    for h in &hv {
+                        for k in [0u64, 65_536, 131_072, 1 << 32, 1 << 33] {
+                            probes.insert(h + k);
+                            probes.insert(h + k + 1);
+                        }
+                    }
+                    for d in [0u64, 65_535, 65_536, range_span - 1, range_span] {
+                        probes.insert(b + d);
+                    }
+                    out.push(format!("hpos {w} {b} {} {} {}", b + range_span, show_nat_list(hv.iter().copied()), show_nat_list(probes.iter().copied())));
+                }
             }
             return out;
         }
